@@ -3,7 +3,7 @@ import spec
 from spec import hex_of
 
 OBLIGATION_MODULES = ["PyModeS.Properties.C12"]
-TIE_MODULES = ['PyModeS.Tie.Basic', 'PyModeS.Tie.Bds10', 'PyModeS.Tie.Bds17', 'PyModeS.Tie.Bds20', 'PyModeS.Tie.Bds40', 'PyModeS.Tie.Bds44', 'PyModeS.Tie.Bds45', 'PyModeS.Tie.Bds50', 'PyModeS.Tie.Bds53', 'PyModeS.Tie.Is60', 'PyModeS.Tie.Infer', 'PyModeS.Tie.C12Gen']
+TIE_MODULES = ['PyModeS.Tie.Basic', 'PyModeS.Tie.Bds10', 'PyModeS.Tie.Bds17', 'PyModeS.Tie.Bds20', 'PyModeS.Tie.Bds40', 'PyModeS.Tie.Bds44', 'PyModeS.Tie.Bds45', 'PyModeS.Tie.Bds50', 'PyModeS.Tie.Bds53', 'PyModeS.Tie.Is60', 'PyModeS.Tie.Infer', 'PyModeS.Tie.C12Gen', 'PyModeS.Tie.C12GenB']
 MAIN_THEOREM = "PyModeS.C12.infer_* (total, EMPTY, DF17 by TC, Comm-B = set of satisfied rules)"
 RULE = ("validly encoded in-envelope register contents (completeness), each status / reserved bit violated on otherwise valid payloads "
         "(soundness), each plausibility threshold +-1 LSB, random payloads, DF17 x TC, all-zero payloads, mrar in {False, True}; "
